@@ -5,7 +5,9 @@ A deliberately small, anchored extractor: every item is located by a regular exp
 specific statement of a specific file and the script fails loudly (exit 2, message naming the
 anchor) when an anchor is not found -- a missing anchor is reported by ./check as a broken tie,
 never silently skipped.  Only constants, name tables and inventories are read here; everything
-behavioural goes through the correspondence harness (tie B).
+behavioural goes through the correspondence harness (tie B) -- with one exception: gen_exit_paths()
+reads the ORDER OF STATEMENTS of the per-flow functions (exit paths, C15) and refuses every statement
+it does not recognise.  VERIF_REPO=<dir> reads another source tree than /repo.
 """
 import os, re, sys, json
 
@@ -564,6 +566,503 @@ def gen_shared():
     return header + "\n".join(L) + "\n", {"shared_inventory": rows}
 
 
+# ------------------------------------------------------------------------------------------
+# C15 (and C08): exit paths -- which statements run, in which order, on every way out of a flow's task.
+# Every function below is cut into its top-level statements; EVERY statement must be recognised by an anchored
+# regular expression (on the comment-free, whitespace-normalised text) and is translated into one `xstep`; a
+# statement that is not recognised raises (tag [ExitPaths]); a statement that is removed or moved yields a
+# different step list, and the theorems of Proofs/ExitPathFacts.v are about exactly these lists.
+def _strip_comments(t):
+    out, i, n = [], 0, len(t)
+    while i < n:
+        c = t[i]
+        if c == '"':
+            j = i + 1
+            while j < n and t[j] != '"':
+                j += 2 if t[j] == "\\" else 1
+            out.append(t[i:j + 1])
+            i = j + 1
+        elif t.startswith("//", i):
+            j = t.find("\n", i)
+            i = n if j < 0 else j
+        elif t.startswith("/*", i):
+            j = t.find("*/", i + 2)
+            i = n if j < 0 else j + 2
+        else:
+            out.append(c)
+            i += 1
+    return "".join(out)
+
+
+def _norm(t):
+    return re.sub(r"\s+", " ", _strip_comments(t)).strip()
+
+
+def _skip_literal(t, i):
+    """index just after the string / char literal that starts at i (i itself when none starts there)"""
+    if t[i] == '"':
+        j = i + 1
+        while j < len(t) and t[j] != '"':
+            j += 2 if t[j] == "\\" else 1
+        return j + 1
+    if t[i] == "'":
+        m = re.match(r"'(\\[^']+|[^\\'])'", t[i:])
+        if m:
+            return i + m.end()
+    return i
+
+
+def _close_of(t, k, what):
+    """t[k] is an opening bracket: index of the matching closing bracket"""
+    depth, i = 0, k
+    while i < len(t):
+        j = _skip_literal(t, i)
+        if j != i:
+            i = j
+            continue
+        if t[i] in "([{":
+            depth += 1
+        elif t[i] in ")]}":
+            depth -= 1
+            if depth == 0:
+                return i
+        i += 1
+    raise AnchorMissing("unbalanced brackets in %s" % what)
+
+
+def _first_open(t, start, ch, what):
+    """index of the first `ch` at bracket depth 0 at or after start"""
+    depth, i = 0, start
+    while i < len(t):
+        j = _skip_literal(t, i)
+        if j != i:
+            i = j
+            continue
+        if t[i] == ch and depth == 0:
+            return i
+        if t[i] in "([{":
+            depth += 1
+        elif t[i] in ")]}":
+            depth -= 1
+        i += 1
+    raise AnchorMissing("no `%s` found in %s" % (ch, what))
+
+
+def _item(text, header_re, what):
+    """(normalised header up to the opening brace, normalised body) of the item whose header matches header_re"""
+    m = re.search(header_re, text)
+    if not m:
+        raise AnchorMissing("%s: header not found (%s)" % (what, header_re))
+    k = _first_open(text, m.start(), "{", what)
+    e = _close_of(text, k, what)
+    return _norm(text[m.start():k]), _norm(text[k + 1:e])
+
+
+def _stmts(body, what):
+    """top-level statements of a (normalised) block body"""
+    t, out, depth, start, i = body, [], 0, 0, 0
+    while i < len(t):
+        j = _skip_literal(t, i)
+        if j != i:
+            i = j
+            continue
+        c = t[i]
+        if c in "([{":
+            depth += 1
+        elif c in ")]}":
+            depth -= 1
+            if depth < 0:
+                raise AnchorMissing("unbalanced brackets in %s" % what)
+            if depth == 0 and c == "}" and re.match(r"(if|match|loop|while|for|unsafe)\b|\{", t[start:].lstrip()) \
+                    and not re.match(r"else\b|\.|\?|;", t[i + 1:].lstrip()):
+                out.append(t[start:i + 1].strip())
+                start = i + 1
+        elif c == ";" and depth == 0:
+            out.append(t[start:i + 1].strip())
+            start = i + 1
+        i += 1
+    if t[start:].strip():
+        out.append(t[start:].strip())
+    return out
+
+
+def _arms(body, what):
+    """[(pattern, expression)] of a (normalised) match body"""
+    t, arms, start = body, [], 0
+    while t[start:].strip():
+        depth, i, k = 0, start, -1
+        while i < len(t):
+            j = _skip_literal(t, i)
+            if j != i:
+                i = j
+                continue
+            if t[i] in "([{":
+                depth += 1
+            elif t[i] in ")]}":
+                depth -= 1
+            elif depth == 0 and t.startswith("=>", i):
+                k = i
+                break
+            i += 1
+        if k < 0:
+            raise AnchorMissing("%s: text after the last match arm: %r" % (what, t[start:][:60]))
+        pat = t[start:k].strip()
+        p = k + 2
+        while p < len(t) and t[p] == " ":
+            p += 1
+        if p < len(t) and t[p] == "{":
+            q = _close_of(t, p, what)
+            expr, nxt = t[p:q + 1], q + 1
+            while nxt < len(t) and t[nxt] in " ,":
+                nxt += 1
+        else:
+            depth, i = 0, p
+            while i < len(t):
+                j = _skip_literal(t, i)
+                if j != i:
+                    i = j
+                    continue
+                if t[i] in "([{":
+                    depth += 1
+                elif t[i] in ")]}":
+                    depth -= 1
+                elif t[i] == "," and depth == 0:
+                    break
+                i += 1
+            expr, nxt = t[p:i].strip(), i + 1
+        arms.append((pat, expr))
+        start = nxt
+    return arms
+
+
+def _block_inner(expr):
+    expr = expr.strip()
+    return expr[1:-1].strip() if expr.startswith("{") and expr.endswith("}") else expr
+
+
+_EP_LOG = (r"(error|info|debug|warn|trace)!\(.*\)[;,]?", ["Log"], False)
+_EP_UNIT = (r"\(\)[;,]?", [], False)
+
+
+def _paths(block, rec, what):
+    """all control-flow paths of a block: [(outcomes, steps, returned)].
+    rec = {"simple": [(regex, steps, returns)], "if": [(cond_regex, then_outcome, else_outcome)],
+           "match": [(scrutinee_regex, steps_before, [(pattern_regex, outcome)])]}"""
+    alts = [([], [], False)]
+    for st in _stmts(block, what):
+        sub = _stmt_paths(st, rec, what)
+        new = []
+        for (o, s, r) in alts:
+            if r:
+                new.append((o, s, r))
+            else:
+                new += [(o + o2, s + s2, r2) for (o2, s2, r2) in sub]
+        alts = new
+    return alts
+
+
+def _stmt_paths(st, rec, what):
+    hits = [(steps, ret) for (rx, steps, ret) in rec.get("simple", []) if re.fullmatch(rx, st)]
+    if len(hits) == 1:
+        return [([], list(hits[0][0]), hits[0][1])]
+    if len(hits) > 1:
+        raise AnchorMissing("%s: statement matches several recognisers: %r" % (what, st))
+    if st.startswith("if "):
+        k = _first_open(st, 3, "{", what)
+        cond = st[3:k].strip()
+        e = _close_of(st, k, what)
+        then_b, rest = st[k + 1:e], st[e + 1:].strip()
+        if rest.startswith("else"):
+            rest = rest[4:].strip()
+            else_b = _block_inner(rest) if rest.startswith("{") and _close_of(rest, 0, what) == len(rest) - 1 else rest
+        elif rest in ("", ";"):
+            else_b = ""
+        else:
+            raise AnchorMissing("%s: text after an if block: %r" % (what, rest[:60]))
+        for (rx, o_then, o_else) in rec.get("if", []):
+            if re.fullmatch(rx, cond):
+                return ([([o_then] + o, s, r) for (o, s, r) in _paths(then_b, rec, what)] +
+                        [([o_else] + o, s, r) for (o, s, r) in _paths(else_b, rec, what)])
+        raise AnchorMissing("%s: unrecognised condition %r" % (what, cond))
+    if st.startswith("match "):
+        k = _first_open(st, 6, "{", what)
+        scrut = st[6:k].strip()
+        e = _close_of(st, k, what)
+        if st[e + 1:].strip() not in ("", ";", ","):
+            raise AnchorMissing("%s: text after a match: %r" % (what, st[e + 1:][:60]))
+        for (rx, before, pats) in rec.get("match", []):
+            if re.fullmatch(rx, scrut):
+                out = []
+                for (pat, expr) in _arms(st[k + 1:e], what):
+                    oc = [o for (prx, o) in pats if re.fullmatch(prx, pat)]
+                    if len(oc) != 1:
+                        raise AnchorMissing("%s: unrecognised arm pattern %r of `match %s`" % (what, pat, scrut))
+                    out += [([oc[0]] + o, list(before) + s, r) for (o, s, r) in _paths(_block_inner(expr), rec, what)]
+                return out
+        raise AnchorMissing("%s: unrecognised match scrutinee %r" % (what, scrut))
+    raise AnchorMissing("%s: unrecognised statement %r" % (what, st[:160]))
+
+
+def _flat(block, simple, what):
+    """a block without branches: one step list"""
+    ps = _paths(block, {"simple": simple}, what)
+    if len(ps) != 1 or ps[0][0]:
+        raise AnchorMissing("%s: expected straight-line code" % what)
+    return ps[0][1]
+
+
+def _spawn_block(body, opener, what):
+    i = body.find(opener)
+    if i < 0 or body.find(opener, i + 1) >= 0:
+        raise AnchorMissing("%s: expected exactly one `%s`" % (what, opener))
+    k = i + len(opener) - 1
+    e = _close_of(body, k, what)
+    if not body[e + 1:].lstrip().startswith(")"):
+        raise AnchorMissing("%s: `%s ... }` is not the whole argument of the spawn" % (what, opener))
+    return body[k + 1:e].strip()
+
+
+def gen_exit_paths():
+    L, facts = [], {}
+
+    def coq_list(xs):
+        return "[" + "; ".join(xs) + "]"
+
+    def emit_steps(name, steps, origin):
+        facts[name] = steps
+        L.append("Definition %s : list xstep := %s.  (* %s *)" % (name, coq_list(steps), origin))
+
+    def emit_paths(name, paths, origin):
+        rows = [(o, s) for (o, s, _r) in paths]
+        facts[name] = rows
+        L.append("Definition %s : list (list outcome * list xstep) :=  (* %s *)\n  [ %s ]." % (
+            name, origin, ";\n    ".join("(%s, %s)" % (coq_list(o), coq_list(s)) for o, s in rows)))
+
+    def emit_bool(name, v, origin):
+        facts[name] = v
+        L.append("Definition %s : bool := %s.  (* %s *)" % (name, "true" if v else "false", origin))
+
+    def pump(names):
+        """recogniser of `let NAME = async { match STREAM.forward(SINK).await { Ok(_) => X, Err(e) => Y, } };`"""
+        out = []
+        for (stream_rx, sink_rx, d) in names:
+            for ok_err in (True, False):
+                for err_err in (True, False):
+                    okx = r"Err(?:::<\(\), _>)?\(relay::Result::Close\([^;{}]*\)\)" if ok_err else r"Ok\([^;{}]*\)"
+                    erx = r"Err\(relay::Result::Err\([^;{}]*\)\)" if err_err else r"Ok\([^;{}]*\)"
+                    out.append((r"let \w+ = async \{ match %s\.forward\(%s\)\.await \{ Ok\(_\) => %s, Err\(\w+\) => %s,? \} \};" % (stream_rx, sink_rx, okx, erx),
+                                ["DefinePump %s %s %s" % (d, "true" if ok_err else "false", "true" if err_err else "false")], False))
+        return out
+
+    def join(a, b):
+        return [(r"(?:let \w+ = )?match tokio::try_join!\(%s, %s\) \{ Ok\(_\) => unreachable!\([^;{}]*\), Err\(e\) => e,? \};?" % (a, b), ["JoinPumps TryJoin"], False),
+                (r"(?:let \w+ = )?match tokio::join!\(%s, %s\) \{.*\};?" % (a, b), ["JoinPumps Join"], False),
+                (r"(?:let \w+ = )?tokio::join!\(%s, %s\);?" % (a, b), ["JoinPumps Join"], False),
+                (r"(?:let \w+ = )?tokio::select! \{.*\};?", ["JoinPumps Select"], False)]
+
+    # ---------------- octo-squirrel/src/codec.rs: QuicStream ----------------
+    f = "octo-squirrel/src/codec.rs"
+    s = src(f)
+    _, impl_body = _item(s, r"\nimpl QuicStream \{", f + ": impl QuicStream")
+    hdr, body = _item(impl_body, r"pub async fn close\(", f + ": QuicStream::close")
+    m = re.fullmatch(r"pub async fn close\((mut self|self|&mut self|&self)\) -> (?:anyhow::)?Result<\(\)>", hdr)
+    if not m:
+        raise AnchorMissing(f + ": signature of QuicStream::close: %r" % hdr)
+    emit_bool("quic_close_consumes_self", m.group(1) in ("mut self", "self"), f + " close(%s): the stream is dropped when close returns" % m.group(1))
+    emit_steps("quic_close_steps", _flat(body, [
+        (r"(?:let _ = )?self\.send\.finish\(\)(?:\.ok\(\)|\?)?;", ["Finish"], False),
+        (r"match self\.send\.stopped\(\)\.await \{ Ok\(_\) => Ok\(\(\)\), Err\(\w+\) => (?:bail!\(\w+\)|Err\([^;{}]*\)),? \}", ["AwaitStopped"], False),
+        (r"(?:let _ = )?self\.send\.stopped\(\)\.await(?:\.ok\(\)|\?|\.map_err\([^;{}]*\)\?)?;", ["AwaitStopped"], False),
+        (r"Ok\(\(\)\)", ["ReturnOk"], True),
+    ], f + ": QuicStream::close"), f + " QuicStream::close")
+    _, impl_body = _item(s, r"\nimpl AsyncWrite for QuicStream \{", f + ": impl AsyncWrite for QuicStream")
+    _, body = _item(impl_body, r"fn poll_shutdown\(", f + ": QuicStream::poll_shutdown")
+    emit_steps("quic_poll_shutdown_steps", _flat(body, [
+        (r"AsyncWrite::poll_shutdown\(Pin::new\(&mut self\.send\), cx\)", ["ShutdownSend"], False),
+        (r"Pin::new\(&mut self\.send\)\.poll_shutdown\(cx\)", ["ShutdownSend"], False),
+        (r"Poll::Ready\(Ok\(\(\)\)\)", [], False),
+    ], f + ": QuicStream::poll_shutdown"), f + " poll_shutdown (quinn SendStream::poll_shutdown = finish)")
+
+    # ---------------- octo-squirrel-server/src/server/template.rs ----------------
+    f = "octo-squirrel-server/src/server/template.rs"
+    s = src(f)
+    split_framed = (r"let \(mut inbound_sink, mut inbound_stream\) = codec\.framed\(inbound\)\.split\(\);", ["SplitFramed"], False)
+    call_relay_to = (r"relay_to\(&mut inbound_sink, &mut inbound_stream\)\.await;?", ["CallRelayTo"], False)
+    _, mod_tcp = _item(s, r"pub\(super\) mod tcp \{", f + ": mod tcp")
+    hdr, body = _item(mod_tcp, r"pub async fn relay<", f + ": tcp::relay")
+    if not re.search(r"\(inbound: I, codec: C\)", hdr):
+        raise AnchorMissing(f + ": tcp::relay must take `inbound: I` by value (the connection is dropped when it returns)")
+    emit_steps("server_tcp_relay_steps", _flat(body, [split_framed, call_relay_to], f + ": tcp::relay"), f + " tcp::relay (owns `inbound`)")
+    hdr, body = _item(mod_tcp, r"pub async fn accept_websocket_then_replay<", f + ": tcp::accept_websocket_then_replay")
+    if not re.search(r"\(inbound: I, codec: C\)", hdr):
+        raise AnchorMissing(f + ": accept_websocket_then_replay must take `inbound: I` by value")
+    emit_paths("server_ws_accept_paths", _paths(body, {
+        "simple": [(r"let \(mut inbound_sink, mut inbound_stream\) = WebSocketFramed::new\(inbound, codec\)\.split\(\);", ["SplitWsFramed"], False),
+                   call_relay_to, _EP_LOG, _EP_UNIT],
+        "match": [(r"ServerBuilder::new\(\)\.accept\(inbound\)\.await", [],
+                   [(r"Ok\(\(_, inbound\)\)", "WsAcceptOk"), (r"Err\(\w+\)", "WsAcceptErr")])]},
+        f + ": accept_websocket_then_replay"), f + " tcp::accept_websocket_then_replay (owns `inbound`)")
+    _, mod_quic = _item(s, r"pub\(super\) mod quic \{", f + ": mod quic")
+    hdr, body = _item(mod_quic, r"pub async fn relay<", f + ": quic::relay")
+    if not re.search(r"\(inbound: QuicStream, codec: C\) -> anyhow::Result<\(\)>", hdr):
+        raise AnchorMissing(f + ": quic::relay must take `inbound: QuicStream` by value and return anyhow::Result<()>")
+    emit_steps("server_quic_relay_steps", _flat(body, [
+        split_framed, call_relay_to,
+        (r"let inbound = inbound_sink\.reunite\(inbound_stream\)\.map\(Framed::into_inner\)\.map_err\(\|e\| anyhow!\(e\)\)\?;", ["Reunite"], False),
+        (r"inbound\.close\(\)\.await", ["CloseStream"], True),
+        (r"(?:let _ = )?inbound\.close\(\)\.await(?:\?|\.ok\(\))?;", ["CloseStream"], False),
+        (r"return [^;]*;", ["ReturnEarly"], True),
+        (r"Ok\(\(\)\)", ["ReturnOk"], True), _EP_LOG,
+    ], f + ": quic::relay"), f + " quic::relay (owns `inbound`; `?` on reunite cannot fail: the halves are a pair)")
+
+    _, body = _item(s, r"\nasync fn relay_to<", f + ": relay_to")
+    first_pats = [(r"Some\(Ok\(InboundIn::ConnectTcp\(\w+, \w+\)\)\)", "FirstIs ConnectTcp"),
+                  (r"Some\(Ok\(InboundIn::RelayUdp\(\w+, \w+\)\)\)", "FirstIs RelayUdp"),
+                  (r"Some\(Ok\(InboundIn::RelayTcp\(\w+\)\)\)", "FirstIs RelayTcp"),
+                  (r"Some\(Err\(\w+\)\)", "FirstIs DecodeErr"),
+                  (r"None", "FirstIs Eof")]
+    paths = _paths(body, {
+        "simple": [(r"(?:let \w+ = )?relay_tcp_bidirectional\(inbound_sink, inbound_stream, outbound, InboundIn::RelayTcp\(\w+\)\)\.await;?", ["RelayTcpBidi"], False),
+                   (r"(?:let \w+ = )?relay_udp_bidirectional\(inbound_sink, inbound_stream, outbound, InboundIn::RelayUdp\(\w+, \w+\)\)\.await;?", ["RelayUdpBidi"], False),
+                   (r"return;?,?", ["ReturnEarly"], True), _EP_LOG, _EP_UNIT],
+        "if": [(r"let Ok\(\w+\) = \w+\.to_socket_addr\(\)", "ResolveOk", "ResolveErr")],
+        "match": [(r"inbound_stream\.next\(\)\.await", [], first_pats),
+                  (r"TcpStream::connect\(\w+\)\.await", [], [(r"Err\(\w+\)", "ConnectErr"), (r"Ok\(outbound\)", "ConnectOk")]),
+                  (r"UdpSocket::bind\([^;{}]*\)\.await", [], [(r"Err\(\w+\)", "BindErr"), (r"Ok\(outbound\)", "BindOk")])]},
+        f + ": relay_to")
+    if not all(o and o[0].startswith("FirstIs ") for (o, _s, _r) in paths):
+        raise AnchorMissing(f + ": relay_to must start with `match inbound_stream.next().await`")
+    emit_paths("server_relay_to_paths", paths, f + " relay_to: one row per control-flow path")
+
+    for nm, fn, split_rx in [("tcp", "relay_tcp_bidirectional", r"let \(outbound_sink, outbound_stream\) = BytesCodec\.framed\(outbound\)\.split\(\);"),
+                             ("udp", "relay_udp_bidirectional", r"let \(outbound_sink, outbound_stream\) = UdpFramed::new\(outbound, DatagramCodec::default\(\)\)\.split\(\);")]:
+        hdr, body = _item(s, r"\nasync fn %s<" % fn, f + ": " + fn)
+        if not re.search(r"outbound: (TcpStream|UdpSocket), first: InboundIn\) -> relay::Result", hdr):
+            raise AnchorMissing(f + ": %s must take the outbound socket by value (it is dropped when the relay returns)" % fn)
+        emit_steps("server_relay_%s_bidi_steps" % nm, _flat(body, [
+            (split_rx, ["SplitOutbound"], False),
+            (r"relay_bidirectional\(inbound_sink, inbound_stream, outbound_sink, outbound_stream, first\)\.await", ["CallRelayBidi"], True),
+        ], f + ": " + fn), f + " " + fn + " (owns `outbound`, borrows the inbound halves)")
+
+    _, body = _item(s, r"\nasync fn relay_bidirectional<", f + ": relay_bidirectional")
+    emit_steps("server_bidi_steps", _flat(body, [
+        (r"match first\.try_into\(\) \{ Ok\(first\) => match outbound_sink\.send\(first\)\.await \{ Ok\(_\) => \(\), Err\(e\) => return relay::Result::Err\([^;{}]*\), \}, "
+         r"Err\(e\) => return relay::Result::Err\([^;{}]*\), \};", ["FirstSend"], False),
+        (r"let outbound_stream = outbound_stream\.filter_map\(\|r\| future::ready\(r\.ok\(\)\)\)\.map\(O::into\)\.map\(Ok\);", ["FilterErrors PumpBA"], False),
+        (r"let inbound_stream = inbound_stream\.filter_map\(\|r\| future::ready\(r\.ok\(\)\)\)\.map\(InboundIn::try_into\);", ["FilterErrors PumpAB"], False),
+    ] + pump([("outbound_stream", "inbound_sink", "PumpBA"), ("inbound_stream", "outbound_sink", "PumpAB")]) + join("p_s_c", "c_s_p"),
+        f + ": relay_bidirectional"), f + " relay_bidirectional")
+
+    # ---------------- octo-squirrel-server/src/server.rs: the per-connection tasks ----------------
+    f = "octo-squirrel-server/src/server.rs"
+    s = src(f)
+    _, body = _item(s, r"\nasync fn startup_tcp<", f + ": startup_tcp")
+    fn_step = {"accept_websocket_then_replay": "CallAcceptWs", "relay": "CallTcpRelay"}
+    m = re.search(r"if ws_config\.is_some\(\) \{ tokio::spawn\(template::tcp::(\w+)\(inbound, codec\)\); \} else \{ tokio::spawn\(template::tcp::(\w+)\(inbound, codec\)\); \}", body)
+    if not m or m.group(1) not in fn_step or m.group(2) not in fn_step:
+        raise AnchorMissing(f + ": startup_tcp plain arm: `if ws_config.is_some() { tokio::spawn(template::tcp::X(inbound, codec)); } else { .. }`")
+    emit_paths("server_plain_task_paths", [(["UseWs"], [fn_step[m.group(1)]], False), (["NoWs"], [fn_step[m.group(2)]], False)], f + " startup_tcp (None, ws) arm: the spawned future IS the call")
+    if not re.search(r"let use_ws = ws_config\.is_some\(\);", body):
+        raise AnchorMissing(f + ": startup_tcp tls arm: `let use_ws = ws_config.is_some();`")
+    emit_paths("server_tls_task_paths", _paths(_spawn_block(body, "tokio::spawn(async move {", f + ": startup_tcp tls task"), {
+        "simple": [(r"template::tcp::accept_websocket_then_replay\(inbound, codec\)\.await;?", ["CallAcceptWs"], False),
+                   (r"template::tcp::relay\(inbound, codec\)\.await;?", ["CallTcpRelay"], False), _EP_LOG, _EP_UNIT],
+        "if": [(r"use_ws", "UseWs", "NoWs")],
+        "match": [(r"tls_acceptor\.accept\(inbound\)\.await", [], [(r"Ok\(inbound\)", "TlsAcceptOk"), (r"Err\(\w+\)", "TlsAcceptErr")])]},
+        f + ": startup_tcp tls task"), f + " startup_tcp (Some(ssl), ws) arm: the spawned block")
+    _, body = _item(s, r"\nasync fn startup_quic<", f + ": startup_quic")
+    emit_steps("server_quic_task_steps", _flat(_spawn_block(body, "tokio::spawn(async {", f + ": startup_quic task"), [
+        (r"let connection = incoming\.await\?;", ["AwaitIncoming"], False),
+        (r"let \(send, recv\) = connection\.accept_bi\(\)\.await\?;", ["AcceptBi"], False),
+        (r"template::quic::relay\(QuicStream::new\(send, recv\), codec\)\.await\?;", ["CallQuicRelay"], False),
+        (r"Ok::<\(\), anyhow::Error>\(\(\)\)", ["ReturnOk"], True),
+    ], f + ": startup_quic task"), f + " startup_quic: the spawned block (holds `connection` until it ends)")
+
+    # ---------------- octo-squirrel-client/src/client/template.rs ----------------
+    f = "octo-squirrel-client/src/client/template.rs"
+    s = src(f)
+    _, body = _item(s, r"\npub async fn transfer_tcp<", f + ": transfer_tcp")
+    emit_paths("client_task_paths", _paths(_spawn_block(body, "tokio::spawn(async move {", f + ": transfer_tcp task"), {
+        "simple": [(r"let handshake = handshake::get_request_addr\(&mut inbound\)\.await;", ["Handshake"], False), _EP_LOG, _EP_UNIT],
+        "if": [(r"let Ok\(peer_addr\) = handshake", "HandshakeOk", "HandshakeErr")],
+        "match": [(r"try_transfer_tcp\(inbound, &peer_addr, &config, context, new_codec\)\.await", ["CallTryTransfer"],
+                   [(r"Ok\(\w+\)", "TransferOk"), (r"Err\(\w+\)", "TransferErr")])]},
+        f + ": transfer_tcp task"), f + " transfer_tcp: the spawned block (owns `inbound`, moves it into try_transfer_tcp)")
+    hdr, body = _item(s, r"\npub async fn try_transfer_tcp<", f + ": try_transfer_tcp")
+    if not re.search(r"\(\s*inbound: TcpStream,", hdr):
+        raise AnchorMissing(f + ": try_transfer_tcp must take `inbound: TcpStream` by value")
+    st = _stmts(body, f + ": try_transfer_tcp")
+    m = re.fullmatch(r"Ok\(match \(&config\.ssl, &config\.ws, &config\.quic\) \{(.*)\}\)", st[-1]) if st else None
+    if not m:
+        raise AnchorMissing(f + ": try_transfer_tcp must end with `Ok(match (&config.ssl, &config.ws, &config.quic) { .. })`")
+    emit_steps("client_try_transfer_steps", _flat(" ".join(st[:-1]), [
+        (r"let local_client = Framed::new\(inbound, BytesCodec\);", ["FrameLocal"], False),
+        (r"let codec = new_codec\(peer_addr, context\)\?;", ["NewCodec"], False),
+    ], f + ": try_transfer_tcp"), f + " try_transfer_tcp: before the transport match")
+    tunnel = {"plain": "Tcp", "tls": "Tls", "ws": "Ws", "wss": "Wss", "quic": "Quic"}
+    arm_rec = [(r"let client_server = new_%s_outbound\(&config\.host, config\.port, codec(?:, \w+)*\)\.await\?;" % k, ["OpenTunnel " + v], False) for k, v in tunnel.items()] + [
+        (r"relay_tcp\(local_client, client_server\)\.await", ["CallRelayTcp"], True),
+        (r"let \(res, client_server\) = relay_tcp_then\(local_client, client_server\)\.await;", ["CallRelayTcpThen"], False),
+        (r"if let Some\(client_server\) = client_server \{ (?:let _ = )?client_server\.into_inner\(\)\.close\(\)\.await(?:\?|\.ok\(\))?; \}", ["CloseReunited None"], False),
+        (r"res", ["YieldResult"], True), _EP_LOG]
+    rows = []
+    for (pat, expr) in _arms(m.group(1), f + ": try_transfer_tcp"):
+        pm = re.fullmatch(r"\((None|_|Some\(\w+\)), (None|_|Some\(\w+\)), (None|_|Some\(\w+\))\)", pat)
+        if not pm:
+            raise AnchorMissing(f + ": try_transfer_tcp arm pattern %r" % pat)
+        inner = _block_inner(expr)
+        mt = re.search(r"if let Some\(client_server\) = client_server \{ let _ = time::timeout\(Duration::from_secs\((\d+)\), client_server\.into_inner\(\)\.close\(\)\)\.await; \}", inner)
+        rec = arm_rec + ([(re.escape(mt.group(0)), ["CloseReunited (Some %s)" % mt.group(1)], False)] if mt else [])
+        rows.append(("(%s)" % ", ".join({"None": "PNone", "_": "PAny"}.get(g, "PSome") for g in pm.groups()), _flat(inner, rec, f + ": try_transfer_tcp arm " + pat)))
+    facts["client_transport_arms"] = rows
+    L.append("Definition client_transport_arms : list ((opat * opat * opat) * list xstep) :=  (* %s try_transfer_tcp: (ssl, ws, quic) arms, first match wins *)\n  [ %s ]." % (
+        f, ";\n    ".join("(%s, %s)" % (p, coq_list(st_)) for p, st_ in rows)))
+    _, body = _item(s, r"\nasync fn relay_tcp<", f + ": relay_tcp")
+    emit_steps("client_relay_tcp_steps", _flat(body, [
+        (r"relay_tcp_then\(local_client, client_server\)\.await\.0", ["CallRelayTcpThen", "DiscardReunited"], True),
+    ], f + ": relay_tcp"), f + " relay_tcp: `.0` drops the handed-back outbound")
+    hdr, body = _item(s, r"\nasync fn relay_tcp_then<", f + ": relay_tcp_then")
+    if not re.search(r"\(local_client: I, client_server: O\) -> \(relay::Result, Option<O>\)", hdr):
+        raise AnchorMissing(f + ": signature of relay_tcp_then")
+    emit_steps("client_relay_tcp_then_steps", _flat(body, [
+        (r"let \(c_l, l_c\) = local_client\.split\(\);", ["SplitLocal"], False),
+        (r"let \(mut c_s, mut s_c\) = client_server\.split\(\);", ["SplitTunnel"], False),
+        (r"if let Err\(e\) = c_s\.send\(BytesMut::new\(\)\)\.await \{ return \(relay::Result::Err\([^;{}]*\), None\); \}", ["FirstSend"], False),
+        (r"\(res, c_s\.reunite\(s_c\)\.ok\(\)\)", ["ReturnReunited"], True),
+    ] + pump([(r"l_c", r"&mut c_s", "PumpAB"), (r"\(&mut s_c\)", r"c_l", "PumpBA")]) + join("l_c_s", "s_c_l"),
+        f + ": relay_tcp_then"), f + " relay_tcp_then (the local halves are moved into the pumps, the tunnel halves are borrowed)")
+
+    header = ("(* GENERATED by tools/gen_from_source.py from /repo's working tree -- do not edit.\n"
+              "   Exit paths: the statements of the per-flow functions, in source order, as abstract steps.\n"
+              "   The vocabulary below is fixed text of the translator; the tables after it are extracted. *)\n"
+              "From Coq Require Import List.\nImport ListNotations.\n\n" + _EXIT_VOCAB + "\n")
+    return header + "\n".join(L) + "\n", facts
+
+
+_EXIT_VOCAB = """Inductive transport := Tcp | Tls | Ws | Wss | Quic.
+Inductive first_item := ConnectTcp | RelayUdp | RelayTcp | DecodeErr | Eof.   (* what inbound_stream.next() yields first *)
+Inductive pdir := PumpAB | PumpBA.   (* AB: inbound (server) / local (client) stream -> outbound / tunnel sink;  BA: the reverse *)
+Inductive join_kind := TryJoin | Join | Select.
+Inductive opat := PNone | PSome | PAny.
+(* the branch taken at a recognised `if let` / `match` *)
+Inductive outcome :=
+| FirstIs (k : first_item) | ResolveOk | ResolveErr | ConnectOk | ConnectErr | BindOk | BindErr
+| WsAcceptOk | WsAcceptErr | TlsAcceptOk | TlsAcceptErr | UseWs | NoWs
+| HandshakeOk | HandshakeErr | TransferOk | TransferErr.
+(* one recognised statement (named xstep: Model/Relay.v already has a `step`) *)
+Inductive xstep :=
+| Log | ReturnEarly | ReturnOk
+| Finish | AwaitStopped | ShutdownSend
+| SplitFramed | SplitWsFramed | CallRelayTo | Reunite | CloseStream
+| RelayTcpBidi | RelayUdpBidi | SplitOutbound | CallRelayBidi
+| FirstSend | FilterErrors (d : pdir) | DefinePump (d : pdir) (ok_to_err err_to_err : bool) | JoinPumps (k : join_kind)
+| AwaitIncoming | AcceptBi | CallQuicRelay | CallTcpRelay | CallAcceptWs
+| Handshake | CallTryTransfer | FrameLocal | NewCodec | OpenTunnel (t : transport)
+| CallRelayTcp | CallRelayTcpThen | CloseReunited (timeout_secs : option nat) | YieldResult | DiscardReunited
+| SplitLocal | SplitTunnel | ReturnReunited.
+"""
+
+
 def write_if_changed(path, content):
     try:
         if open(path, encoding="utf-8").read() == content:
@@ -579,7 +1078,8 @@ def write_if_changed(path, content):
 def main():
     facts = {}
     errors = []
-    for name, fn in [("Params", gen_params), ("Tables", gen_tables), ("Shared", gen_shared), ("ConfigTables", gen_config)]:
+    for name, fn in [("Params", gen_params), ("Tables", gen_tables), ("Shared", gen_shared), ("ConfigTables", gen_config),
+                     ("ExitPaths", gen_exit_paths)]:
         try:
             text, fc = fn()
             facts.update(fc)
